@@ -1062,3 +1062,195 @@ def th7(model):
         else:
             r.undec(c, 'length argument not recognised')
     return r
+
+
+# ----------------------------------------------------------------------------- ST1
+STAR_FORMS = {
+    # macros that LaTeX (or the named package) also defines in a starred form; written down
+    # from the LaTeX / amsthm documentation, not from the repository
+    '\\newcommand': 'LaTeX', '\\renewcommand': 'LaTeX', '\\providecommand': 'LaTeX',
+    '\\newtheorem': 'amsthm', '\\part': 'LaTeX', '\\chapter': 'LaTeX', '\\section': 'LaTeX',
+    '\\subsection': 'LaTeX', '\\subsubsection': 'LaTeX', '\\vspace': 'LaTeX', '\\hspace': 'LaTeX',
+}
+
+
+def st1(model):
+    from .rg import _param_strings, _entry_name
+    r = RuleResult('ST1', 'a macro that also exists in a starred form (\\section*, \\newcommand*, '
+                   '\\newtheorem* of amsthm, \\vspace* ...) is declared with a leading * in its '
+                   'argument code: otherwise the star is taken for the first argument and the '
+                   'real arguments are copied to the text', floor=6)
+    pstr = _param_strings(model)
+    seen = set()
+    for ent in tables.registry(model):
+        name = _entry_name(model, ent, pstr)
+        if name not in STAR_FORMS or ent['kind'] != 'Macro':
+            continue
+        code = ent['args']
+        if code is None:
+            code = ent['kw'].get('args')
+        if not isinstance(code, ast.Constant):
+            continue
+        seen.add(name)
+        if str(code.value).startswith('*'):
+            r.ok(ent['node'], '%s accepts its starred form' % name, sample=False)
+        else:
+            r.fail(ent['node'], '%s is declared with the argument code %r, without a leading *: in '
+                   '%s* (%s) the star becomes the first argument' % (name, code.value, name, STAR_FORMS[name]),
+                   witness='\\usepackage{amsthm}\\newtheorem*{remark}{Remark} leaves "Remark" in the text '
+                           'and declares an environment called *')
+    return r
+
+
+# ----------------------------------------------------------------------------- SIG1
+LATEX_SIGNATURES = {
+    # optional ([..] = O) and mandatory ({..} = A) arguments as documented for LaTeX2e (latex2e
+    # reference manual); only constructs that the built-in tables declare are compared
+    'macro': {
+        '\\bibitem': 'OA', '\\caption': 'OA', '\\cite': 'OA', '\\footnote': 'OA',
+        '\\footnotetext': 'OA', '\\footnotemark': 'O', '\\framebox': 'OOA',
+        '\\documentclass': 'OA', '\\usepackage': 'OA', '\\part': 'OA', '\\chapter': 'OA',
+        '\\section': 'OA', '\\subsection': 'OA', '\\subsubsection': 'OA', '\\label': 'A',
+        '\\ref': 'A', '\\pageref': 'A', '\\index': 'A', '\\include': 'A', '\\input': 'A',
+        '\\newcommand': 'AOOA', '\\renewcommand': 'AOOA', '\\hspace': 'A', '\\vspace': 'A',
+        '\\pagestyle': 'A', '\\thispagestyle': 'A', '\\pagenumbering': 'A',
+        '\\bibliographystyle': 'A', '\\vphantom': 'A', '\\phantom': 'A', '\\hphantom': 'A',
+    },
+    'env': {'figure': 'O', 'table': 'O', 'minipage': 'OOOA', 'tabular': 'OA', 'thebibliography': 'A'},
+}
+
+
+def _accepts(declared, reference):
+    """declared argument code (star stripped) accepts every call form of the reference"""
+    def shape(code):
+        out, o = [], 0
+        for c in code:
+            if c == 'O':
+                o += 1
+            elif c == 'A':
+                out.append(o)
+                o = 0
+        return out, o
+    d, dt = shape(declared)
+    f, ft = shape(reference)
+    if len(d) != len(f):
+        return False
+    return all(x >= y for x, y in zip(d, f)) and dt >= ft
+
+
+def sig1(model):
+    from .rg import _param_strings, _entry_name, latex_defs
+    r = RuleResult('SIG1', 'the built-in declarations of standard LaTeX constructs accept the '
+                   'optional arguments LaTeX documents for them (\\begin{minipage}[t]{5cm}, '
+                   '\\begin{tabular}[t]{ll}, \\bibitem[label]{key}, ...): an undeclared [..] is copied '
+                   'to the text together with the following mandatory argument', floor=15)
+    pstr = _param_strings(model)
+    for ent in tables.registry(model):
+        if ent['node']._mod.short != 'parameters':
+            continue
+        name = _entry_name(model, ent, pstr)
+        kind = 'macro' if ent['kind'] == 'Macro' else 'env'
+        ref = LATEX_SIGNATURES[kind].get(name)
+        if ref is None:
+            continue
+        code = ent['args'] if ent['args'] is not None else ent['kw'].get('args')
+        codev = code.value if isinstance(code, ast.Constant) else ''
+        dec = str(codev).lstrip('*')
+        if _accepts(dec, ref):
+            r.ok(ent['node'], '%s: declared %r accepts the LaTeX form %r' % (name, codev, ref), sample=False)
+        else:
+            r.fail(ent['node'], '%s is declared with the arguments %r, LaTeX documents %r: an optional '
+                   'argument of a real document is not consumed and leaks into the text' % (name, codev, ref),
+                   stmt='signature of ' + name,
+                   witness='\\begin{minipage}[t]{5cm} text \\end{minipage}  ->  "t]5cm text"')
+    for m, name, nargs, body, node in latex_defs(model):
+        if m.short != 'parameters':
+            continue
+        ref = LATEX_SIGNATURES['macro'].get(name)
+        if ref is None:
+            continue
+        # \newcommand{\x}[n][default]: n arguments, the first optional iff a default is given
+        src = m.src
+        import re as _re
+        mm = _re.search(_re.escape('\\newcommand{' + name + '}') + r'(\[(\d)\])?(\[[^\]]*\])?', src)
+        n = int(mm.group(2)) if mm and mm.group(2) else 0
+        dec = ('O' + 'A' * (n - 1)) if mm and mm.group(3) is not None and n else 'A' * n
+        if _accepts(dec, ref):
+            r.ok(node, '%s: \\newcommand form %r accepts %r' % (name, dec, ref), sample=False)
+        else:
+            r.fail(node, '%s is defined with the arguments %r, LaTeX documents %r: an optional argument '
+                   'is not consumed and leaks into the text' % (name, dec, ref),
+                   stmt='signature of ' + name,
+                   witness='\\bibitem[Kn84]{knuth}  ->  "Kn84]knuth"')
+    return r
+
+
+# ----------------------------------------------------------------------------- DF2
+def df2(model):
+    r = RuleResult('DF2', 'the content of a removed environment is discarded completely: the caller '
+                   'that lets expand_sequence run up to the end of the environment (env_stop=..) and '
+                   'drop the collected tokens also drops the text flows (footnotes, captions) that '
+                   'were extracted meanwhile - it saves len(self.extracted) before and truncates '
+                   'the list in place afterwards', floor=1)
+    n = 0
+    for f in model.all_funcs():
+        if isinstance(f.node, ast.Lambda) or not isinstance(f.node.body, list):
+            continue
+        for c in iter_scope(f.node):
+            if not (isinstance(c, ast.Call) and T.call_name(c) == 'expand_sequence'
+                    and any(k.arg == 'env_stop' for k in c.keywords)):
+                continue
+            n += 1
+            st = _stmt_of(c)
+            blk = st._parent
+            seq = next((getattr(blk, fld) for fld in ('body', 'orelse') if st in getattr(blk, fld, [])), [])
+            i = seq.index(st)
+            saved = None
+            for s in seq[:i]:
+                if isinstance(s, ast.Assign) and isinstance(s.targets[0], ast.Name) and isinstance(s.value, ast.Call) \
+                        and getattr(s.value.func, 'id', '') == 'len' and s.value.args \
+                        and unparse(s.value.args[0]).endswith('.extracted'):
+                    saved = s.targets[0].id
+            trunc = [s for s in seq[i + 1:] if isinstance(s, ast.Delete) and len(s.targets) == 1
+                     and isinstance(s.targets[0], ast.Subscript) and unparse(s.targets[0].value).endswith('.extracted')
+                     and isinstance(s.targets[0].slice, ast.Slice) and s.targets[0].slice.upper is None
+                     and saved is not None and unparse(s.targets[0].slice.lower) == saved]
+            if saved and trunc:
+                r.ok(c, 'flows extracted inside the removed environment are dropped (del ...[%s:])' % saved,
+                     nontrivial=True)
+            else:
+                r.fail(c, 'the tokens of a removed environment are dropped, but the footnotes and captions '
+                       'extracted while it was expanded stay in self.extracted and are output',
+                       witness='\\begin{tikzpicture}\\node{A\\footnote{hidden text}};\\end{tikzpicture} with package tikz')
+    if n == 0:
+        r.undec(model.func('parser.Parser.begin_environment').node, 'no expand_sequence(.., env_stop=..) call found')
+        r.instances = 1
+    return r
+
+
+# ----------------------------------------------------------------------------- SBL1
+def sbl1(model):
+    r = RuleResult('SBL1', 'sibling agreement of the definition handlers: every function that '
+                   'registers a macro defined in the document (\\newcommand / \\renewcommand and '
+                   '\\def) first consults Parameters.newcommand_ignore - the filter\'s own macros '
+                   '\\LTadd, \\LTskip, \\LTalter, \\LTinput keep their built-in meaning', floor=2)
+    for q in ('handlers.h_newcommand', 'parser.Parser.parse_def_macro'):
+        f = model.func(q)
+        stores = [n for n in iter_scope(f.node) if isinstance(n, ast.Assign) and isinstance(n.targets[0], ast.Subscript)
+                  and unparse(n.targets[0].value).endswith('.the_macros')]
+        if not stores:
+            r.undec(f.node, 'no registration found in %s' % f.name)
+            r.instances += 1
+            continue
+        for s in stores:
+            ok = guards.has_fact(s, lambda e, t: isinstance(e, ast.Compare) and isinstance(e.ops[0], (ast.In, ast.NotIn))
+                                 and unparse(e.comparators[0]).endswith('newcommand_ignore')
+                                 and isinstance(e.ops[0], ast.NotIn) == t)
+            if ok:
+                r.ok(s, '%s registers only names outside newcommand_ignore' % f.name, nontrivial=True)
+            else:
+                r.fail(s, '%s registers the definition without consulting newcommand_ignore, unlike its '
+                       'sibling: a \\def of \\LTskip / \\LTadd in the document overrides the built-in '
+                       'meaning and hidden text appears' % f.name,
+                       witness='\\def\\LTskip#1{#1} A \\LTskip{hidden} B')
+    return r
